@@ -4,7 +4,7 @@
    also what is extracted and run against the real C++. *)
 From Coq Require Import ZArith List Bool.
 From MomoCommon Require Import GenPrelude.
-From C17 Require Gen_Leaves Leaves_Proofs SorterSearch SorterSort Search_Proofs Find_Proofs IsSorted_Proofs Sort_Proofs Radix_Proofs CodeGetter Checker Instance SelPrims Gen_SelSort SelSort_Proofs SelSort_Refine Gen_Radix Radix_Gen_Proofs Gen_RadixCount Radix_Count_Refine Gen_RadixCycle Radix_Cycle_Refine Gen_HsGuards HsGuards_Proofs Gen_FindHash FindHash_Refine Gen_Group Group_Refine Gen_Searches Searches_Refine Gen_GroupLambda GroupLambda_Proofs.
+From C17 Require Gen_Leaves Leaves_Proofs SorterSearch SorterSort Search_Proofs Find_Proofs IsSorted_Proofs Sort_Proofs Radix_Proofs CodeGetter Checker Instance SelPrims Gen_SelSort SelSort_Proofs SelSort_Refine Gen_Radix Radix_Gen_Proofs Gen_RadixCount Radix_Count_Refine Gen_RadixCycle Radix_Cycle_Refine Gen_HsGuards HsGuards_Proofs Gen_FindHash FindHash_Refine Gen_Group Group_Refine Gen_Searches Searches_Refine Gen_GroupLambda GroupLambda_Proofs Gen_IsSorted IsSorted_Refine.
 Import ListNotations.
 Local Open Scope Z_scope.
 
@@ -397,3 +397,22 @@ Theorem C17_gen_group_lambda_skips_only_trivial_runs : forall eqf l q c,
   Gen_GroupLambda.group_lambda_calls_pvGroup c = false -> Sort_Proofs.contigL eqf l q (q + c).
 Proof. exact GroupLambda_Proofs.gen_group_lambda_skips_only_trivial_runs. Qed.
 Print Assumptions C17_gen_group_lambda_skips_only_trivial_runs.
+
+(* ---- the GENERATED HashSorter::pvIsSorted / pvIsGrouped (Gen_IsSorted.v) ---- *)
+(* whenever the hand model returns Ok b (all its reads inside the array), the generated pvIsSorted returns Ok b *)
+Theorem C17_gen_is_sorted_refines_model : forall count hash item eqf, 0 <= count < 2 ^ 62 ->
+  forall loop_fuel, (Z.to_nat count + 2 <= loop_fuel)%nat ->
+  forall b, SorterSearch.pvIsSorted count hash item eqf = Ok b ->
+    Gen_IsSorted.pvIsSorted eqf loop_fuel item hash 0 count = Ok b.
+Proof. exact IsSorted_Refine.gen_pvIsSorted_refines. Qed.
+Print Assumptions C17_gen_is_sorted_refines_model.
+
+(* C17_is_sorted_iff about the GENERATED function: for every array and every equivalence equalFunc it terminates and returns
+   true exactly when hashes are non-decreasing and equal items are contiguous inside every hash run *)
+Theorem C17_gen_is_sorted_iff : forall count hash item eqf loop_fuel, 0 <= count < 2 ^ 62 -> (Z.to_nat count + 2 <= loop_fuel)%nat ->
+  (forall a, eqf a a = true) -> (forall a b, eqf a b = true -> eqf b a = true) ->
+  (forall a b c, eqf a b = true -> eqf b c = true -> eqf a c = true) ->
+  exists b, Gen_IsSorted.pvIsSorted eqf loop_fuel item hash 0 count = Ok b /\
+    (b = true <-> IsSorted_Proofs.sorted_spec count hash item eqf).
+Proof. exact IsSorted_Refine.gen_is_sorted_iff. Qed.
+Print Assumptions C17_gen_is_sorted_iff.
